@@ -183,8 +183,17 @@ def eck_pack(c):
         s = c.param("self")
         curve = s.fields["curve_name"]
         if not isinstance(curve, str):
-            c.requires(False, "known-curve")
-            return
+            # symbolic curve name: case split over the curves the writer knows (any other name is the writer's ValueError)
+            found = None
+            for k in CURVES:
+                if c.ctx.branch(curve.term == str_lit(k)):
+                    found = k
+                    break
+            if found is None:
+                c.raises("ValueError", when=True)
+                c.returns(c.rope())
+                return
+            curve = found
     n, x, y = (s.fields[k] for k in ("key_length", "x", "y"))
     ok = z3.And(Z(n) >= 0, Z(n) < 2**32, fits(c, x, n), fits(c, y, n))
     c.raises("OverflowError", when=z3.And(Z(n) >= 0, z3.Not(ok)))
